@@ -11,6 +11,9 @@
 //   sniff <hexbytes>                                        pocket_csv::sniffer
 //   num  <hexstring>                                        is_number / std::stod / std::stoi of one string
 //   var  <delim> <hdr> <trim> <oidx> <typing> <hexbytes>    read + setup_terminals + run every variable
+//   var2 <csv|xrff> <delim> <hdr> <trim> <keep> <oidx> <hook> <typing> <data|ctor> <hexbytes>
+//                                                           read (either format) + setup_terminals: every
+//                                                           inserted symbol (variables, state constants)
 //
 //   delim : byte value, 0 = sniff          hdr  : -1 guess, 0 no header, 1 header
 //   oidx  : -1 = no output column          filter / hook: see make_filter
@@ -396,6 +399,79 @@ int main()
           }
         }
         return o.str();
+      });
+    }
+
+    else if (op == "var2" && t.size() == 11)
+    {
+      // var2 <csv|xrff> <delim> <hdr> <trim> <keep> <oidx> <hook> <typing> <data|ctor> <hexbytes>
+      // read + setup_terminals; every symbol setup_terminals inserted, in insertion order (the
+      // opcodes of the symbols of a process are consecutive), with what it evaluates to.
+      ans = guarded([&]
+      {
+        const auto p(make_params2(t, 2));
+        const auto ty(t[8] == "1" ? typing::strong : typing::weak);
+        std::istringstream is(verif::unhex(t[10]));
+        std::unique_ptr<src_problem> prp;
+        opcode_t first(0);
+        if (t[9] == "ctor")        // src_problem(std::istream &, typing): default parameters
+        {
+          first = variable("probe", 0).opcode() + 1;
+          prp = std::make_unique<src_problem>(is, ty);
+        }
+        else
+        {
+          prp = std::make_unique<src_problem>();
+          if (t[1] == "xrff") prp->data().read_xrff(is, p); else prp->data().read_csv(is, p);
+          first = variable("probe", 0).opcode() + 1;
+          prp->setup_terminals(ty);
+        }
+        auto &pr(*prp);
+        const auto &d(pr.data());
+        const opcode_t last(variable("probe", 0).opcode());
+        std::ostringstream o;
+        std::size_t n(0);
+        for (opcode_t c(first); c < last; ++c)
+          if (const symbol *s = pr.sset.decode(c))
+          {
+            ++n;
+            const auto *tm(s->terminal() ? static_cast<const terminal *>(s) : nullptr);
+            if (tm && tm->input())
+            {
+              o << " v " << hex(s->name()) << ' ' << s->category() << ' ' << std::min<std::size_t>(3, d.size());
+              std::size_t row(0);
+              for (const auto &e : d)
+              {
+                probe_params pp;
+                pp.ex = &e.input;
+                const value_t direct(s->eval(pp));
+                o << ' ' << pp.asked << ' ' << val(direct);
+                if (s->category() == 0)   // i_mep(vector<gene>) starts at locus (0, 0)
+                {
+                  const i_mep ind({gene(*tm)});
+                  o << ' ' << val(run(ind, e.input));
+                }
+                else
+                  o << " -";
+                if (++row >= 3) break;
+              }
+            }
+            else if (tm)
+            {
+              probe_params pp;
+              const std::vector<value_t> none;
+              pp.ex = &none;
+              o << " k " << hex(s->name()) << ' ' << s->category() << ' ' << val(s->eval(pp));
+            }
+            else
+              o << " f " << hex(s->name()) << ' ' << s->category();
+          }
+        std::ostringstream h;
+        h << "ok S " << n << o.str() << " P " << pr.sset.categories() << ' ' << pr.variables() << ' '
+          << pr.classes() << " C " << d.columns.size();
+        for (const auto &c : d.columns)
+          h << ' ' << hex(c.name) << ' ' << int(c.domain) << ' ' << c.states.size();
+        return h.str();
       });
     }
 
